@@ -277,6 +277,13 @@ ADDED10 = {
 for _pid, _t in ADDED10.items():
     CLAIMS[_pid]["text"] = CLAIMS[_pid]["text"].rstrip() + " Round 10: " + _t
 
+# clauses added in the short eleventh seeding round
+ADDED11 = {
+    "C17": "R-17.4 also: every statement of LRUCache.put that reads the answer parameter reaches the normal exit only through `link_after(self.sentinel)` (a put is a use: the refreshed entry is the last to be evicted).",
+}
+for _pid, _t in ADDED11.items():
+    CLAIMS[_pid]["text"] = CLAIMS[_pid]["text"].rstrip() + " Round 11: " + _t
+
 NA_REASON = {}
 def na(pid, reason):
     NA_REASON[pid] = reason
